@@ -9,12 +9,12 @@ package main
 
 import (
 	"bufio"
-	"os"
-	"runtime"
 	"crypto/tls"
 	"fmt"
 	"io"
 	"net"
+	"os"
+	"runtime"
 	"strconv"
 	"strings"
 	"sync"
@@ -169,6 +169,18 @@ func driveSys(cfg *hx.RunCfg) error {
 			p.Transport.UseCompression = true
 		})
 	}
+	// 11, 12: bandwidth limit below the 32 KiB copy buffer, server side and client side
+	for i, mode := range []string{"server", "client"} {
+		ba, err := be.add(c02Addr, 11+i)
+		if err != nil {
+			return err
+		}
+		mode := mode
+		addHTTP(fmt.Sprintf("web%d", 11+i), &routeSpec{domain: fmt.Sprintf("s%d.c02.test", 11+i)}, ba, func(p *v1.HTTPProxyConfig) {
+			p.Transport.BandwidthLimit, _ = types.NewBandwidthQuantity("24KB")
+			p.Transport.BandwidthLimitMode = mode
+		})
+	}
 	// 8 stalling backend, 9 dead backend
 	stallAddr, err := be.add(c02Addr, 8)
 	if err != nil {
@@ -284,71 +296,233 @@ func driveSys(cfg *hx.RunCfg) error {
 	saddr := net.JoinHostPort(sysAddr, fmt.Sprint(httpsPort))
 	for _, sp := range tlsProxies {
 		for rep := 0; rep < 3; rep++ {
-			u, err := dialUser(saddr, fmt.Sprintf("127.0.2.%d", 11+g.Intn(240)))
-			if err != nil {
-				return err
-			}
-			ip, _, _ := net.SplitHostPort(u.c.LocalAddr().String())
-			tc := tls.Client(u.c, &tls.Config{InsecureSkipVerify: true, ServerName: sp.rt.domain, NextProtos: []string{"http/1.1"}})
-			_ = tc.SetDeadline(time.Now().Add(5 * time.Second))
-			if err := tc.Handshake(); err != nil {
-				st.fail("impl:sys-tls-handshake", sp.name+": "+err.Error(), sp.name)
-				u.close()
-				continue
-			}
-			_ = tc.SetDeadline(time.Time{})
-			tu := newUserConn(tc)
-			var answered []string
-			for k := 0; k < 3; k++ {
-				rg := genRequest(g, sp.rt, cfg.Tier, false)
-				for rg.absform || strings.ToLower(strings.TrimSuffix(strings.Split(rg.hostSent, ":")[0], ".")) != sp.rt.domain {
-					rg = genRequest(g, sp.rt, cfg.Tier, false)
-				}
-				resp := genResponse(g, rg.req.method, cfg.Tier, false)
-				if resp.framing == "close" {
-					// this section measures keep-alive on one connection (CKeep); close-delimited answers are
-					// exercised by the other sections, where a lost exchange is repeated once
-					resp.framing = "cl"
-				}
-				be.script(resp)
-				be.drain()
-				got, err := tu.do(rg.req, 20*time.Second)
+			// a connection of the uncompressed proxy on which a request got no answer is repeated once, from scratch
+			// (seen only under extreme machine load); reported when it happens again
+			for attempt := 0; attempt < 2; attempt++ {
+				savedCases, savedImpl := len(cases), len(st.impl)
+				u, err := dialUser(saddr, fmt.Sprintf("127.0.2.%d", 11+g.Intn(240)))
 				if err != nil {
-					if os.Getenv("C02_DEBUG") != "" {
-						fmt.Fprintf(os.Stderr, "TLS FAIL %s k=%d err=%v req=%s %s framing=%s len=%d resp=%d %s %d\n", sp.name, k, err, rg.req.method, rg.req.target, rg.req.framing, len(rg.req.body), resp.status, resp.framing, len(resp.body))
+					return err
+				}
+				ip, _, _ := net.SplitHostPort(u.c.LocalAddr().String())
+				tc := tls.Client(u.c, &tls.Config{InsecureSkipVerify: true, ServerName: sp.rt.domain, NextProtos: []string{"http/1.1"}})
+				_ = tc.SetDeadline(time.Now().Add(5 * time.Second))
+				if err := tc.Handshake(); err != nil {
+					st.fail("impl:sys-tls-handshake", sp.name+": "+err.Error(), sp.name)
+					u.close()
+					continue
+				}
+				_ = tc.SetDeadline(time.Time{})
+				tu := newUserConn(tc)
+				var answered []string
+				for k := 0; k < 3; k++ {
+					rg := genRequest(g, sp.rt, cfg.Tier, false)
+					for rg.absform || strings.ToLower(strings.TrimSuffix(strings.Split(rg.hostSent, ":")[0], ".")) != sp.rt.domain {
+						rg = genRequest(g, sp.rt, cfg.Tier, false)
 					}
-					answered = append(answered, "false")
-					if sp.comp && k > 0 {
-						// KNOWN FINDING (design/C02.md F-C02c): with useCompression a plugin's HTTP server loses the
-						// connection after its first request (net/http interrupts its background read with a read
-						// deadline; the snappy reader keeps that error for ever)
-						st.dist["finding:plugin+compression:keepalive-second-request"]++
-						if st.dist["finding:plugin+compression:keepalive-second-request"] == 1 {
-							st.fail("C02:plugin+compression:keepalive-second-request",
-								"https proxy + client plugin "+sp.plugin+" + transport.useCompression: request #"+fmt.Sprint(k+1)+" on one keep-alive connection gets no answer ("+err.Error()+")",
-								"driver sys, proxy "+sp.name+": "+rg.req.method+" "+rg.req.target)
+					resp := genResponse(g, rg.req.method, cfg.Tier, false)
+					if resp.framing == "close" {
+						// this section measures keep-alive on one connection (CKeep); close-delimited answers are
+						// exercised by the other sections, where a lost exchange is repeated once
+						resp.framing = "cl"
+					}
+					be.script(resp)
+					be.drain()
+					got, err := tu.do(rg.req, 20*time.Second)
+					if err != nil {
+						if os.Getenv("C02_DEBUG") != "" {
+							fmt.Fprintf(os.Stderr, "TLS FAIL %s k=%d err=%v req=%s %s framing=%s len=%d resp=%d %s %d\n", sp.name, k, err, rg.req.method, rg.req.target, rg.req.framing, len(rg.req.body), resp.status, resp.framing, len(resp.body))
 						}
+						answered = append(answered, "false")
+						if sp.comp && k > 0 {
+							// KNOWN FINDING (design/C02.md F-C02c): with useCompression a plugin's HTTP server loses the
+							// connection after its first request (net/http interrupts its background read with a read
+							// deadline; the snappy reader keeps that error for ever)
+							st.dist["finding:plugin+compression:keepalive-second-request"]++
+							if st.dist["finding:plugin+compression:keepalive-second-request"] == 1 {
+								st.fail("C02:plugin+compression:keepalive-second-request",
+									"https proxy + client plugin "+sp.plugin+" + transport.useCompression: request #"+fmt.Sprint(k+1)+" on one keep-alive connection gets no answer ("+err.Error()+")",
+									"driver sys, proxy "+sp.name+": "+rg.req.method+" "+rg.req.target)
+							}
+							break
+						}
+						st.fail("impl:sys-exchange-failed", fmt.Sprintf("%s: %v", sp.name, err), rg.req.target)
 						break
 					}
-					st.fail("impl:sys-exchange-failed", fmt.Sprintf("%s: %v", sp.name, err), rg.req.target)
-					break
+					answered = append(answered, "true")
+					seen := be.waitSeen(5 * time.Second)
+					if seen == nil {
+						st.fail("impl:sys-backend-saw-nothing", sp.name, rg.req.target)
+						break
+					}
+					beginCase()
+					cases = append(cases, endCase(fmt.Sprintf("CPlug %s (%s) (%s) %s (%s) (%s) (%s)", sp.coqP, coqPopts(sp.po, observedOrder(sp.po.headers, seen.hdrs)),
+						coqReq(rg, ip, true), S(reencQuery(rg.query)), coqSeen(seen), coqScripted(resp, rg.req.method), coqGotFor(got, resp))))
+					st.dist["sys:"+sp.name+":tls-plugin"]++
+					if os.Getenv("C02_DEBUG") != "" {
+						fmt.Fprintf(os.Stderr, "TLS OK %s k=%d req=%s framing=%s len=%d resp=%d %s %d gotframing=%s\n", sp.name, k, rg.req.method, rg.req.framing, len(rg.req.body), resp.status, resp.framing, len(resp.body), got.framing)
+					}
 				}
-				answered = append(answered, "true")
-				seen := be.waitSeen(5 * time.Second)
-				if seen == nil {
-					st.fail("impl:sys-backend-saw-nothing", sp.name, rg.req.target)
-					break
+				tu.close()
+				lost := false
+				for _, a := range answered {
+					lost = lost || a == "false"
 				}
-				beginCase()
-				cases = append(cases, endCase(fmt.Sprintf("CPlug %s (%s) (%s) %s (%s) (%s) (%s)", sp.coqP, coqPopts(sp.po, observedOrder(sp.po.headers, seen.hdrs)),
-					coqReq(rg, ip, true), S(reencQuery(rg.query)), coqSeen(seen), coqScripted(resp, rg.req.method), coqGotFor(got, resp))))
-				st.dist["sys:"+sp.name+":tls-plugin"]++
-				if os.Getenv("C02_DEBUG") != "" {
-					fmt.Fprintf(os.Stderr, "TLS OK %s k=%d req=%s framing=%s len=%d resp=%d %s %d gotframing=%s\n", sp.name, k, rg.req.method, rg.req.framing, len(rg.req.body), resp.status, resp.framing, len(resp.body), got.framing)
+				if lost && !sp.comp && attempt == 0 {
+					cases, st.impl = cases[:savedCases], st.impl[:savedImpl]
+					st.dist["keepalive-connection-repeated"]++
+					continue
+				}
+				cases = append(cases, fmt.Sprintf("CKeep %s %s", hx.Bool(sp.comp), hx.List(answered)))
+				break
+			}
+		}
+	}
+
+	ask := func(req *userReq, timeout time.Duration) (*userResp, time.Duration) {
+		u, err := dialUser(vaddr, fmt.Sprintf("127.0.2.%d", 11+g.Intn(240)))
+		if err != nil {
+			return nil, 0
+		}
+		defer u.close()
+		t0 := time.Now()
+		resp, err := u.do(req, timeout)
+		if err != nil {
+			return nil, time.Since(t0)
+		}
+		return resp, time.Since(t0)
+	}
+
+	// ---- large request heads through the real vhost HTTP server (net/http default: up to 1 MiB + 4 KiB) ----
+	for _, n := range []int{24 << 10, 60 << 10, 300 << 10} {
+		val := make([]byte, n)
+		for i := range val {
+			val[i] = "abcdefghijklmnopqrstuvwxyz0123456789"[g.Intn(36)]
+		}
+		req := simpleGet("s1.c02.test", "/big-head")
+		req.hdrs = append(req.hdrs, hdr{"Cookie", "session=" + string(val)}, hdr{"X-After", "1"})
+		headBytes := len("GET /big-head HTTP/1.1\r\nHost: s1.c02.test\r\n\r\n")
+		for _, kv := range req.hdrs {
+			headBytes += len(kv[0]) + len(kv[1]) + 4
+		}
+		be.script(&scripted{status: 200, framing: "cl", body: []byte("ok"), hdrs: []hdr{{"Content-Type", "text/plain"}}})
+		be.drain()
+		got, _ := ask(req, 5*time.Second)
+		status := 0
+		if got != nil {
+			status = got.status
+		}
+		seenVal := ""
+		if sn := be.waitSeen(time.Second); sn != nil && sn.target == "/big-head" {
+			for _, kv := range sn.hdrs {
+				if strings.EqualFold(kv[0], "Cookie") {
+					seenVal = kv[1]
 				}
 			}
-			tu.close()
-			cases = append(cases, fmt.Sprintf("CKeep %s %s", hx.Bool(sp.comp), hx.List(answered)))
+		}
+		seenID := "[]"
+		if seenVal != "" {
+			seenID = hx.HxS(bodyID([]byte(seenVal)))
+		}
+		cs := fmt.Sprintf("CBigHead %d %d %s %s", headBytes, status, hx.HxS(bodyID([]byte("session="+string(val)))), seenID)
+		cases = append(cases, cs)
+		st.dist["big-head:"+bucket(n)]++
+		if status != 200 || seenVal != "session="+string(val) {
+			st.fail("impl:large-request-head-not-forwarded", fmt.Sprintf("a well-formed request with a %d-byte head through vhostHTTPPort: status %d, backend saw the Cookie header: %v", headBytes, status, seenVal != ""), cs)
+		}
+	}
+
+	// ---- bodies larger than a bandwidth limit that is below the 32 KiB copy buffer ----
+	for i, mode := range []string{"server", "client"} {
+		host := fmt.Sprintf("s%d.c02.test", 11+i)
+		payload := g.Bytes(64 << 10)
+		if mode == "client" {
+			// the upload has to finish within this frps' vhostHTTPTimeout of 1 s: 24 KiB burst + 16 KiB at 24 KiB/s
+			payload = payload[:40<<10]
+		}
+		var req *userReq
+		if mode == "server" { // the server side limiter reads the work connection: the response direction
+			be.script(&scripted{status: 200, framing: "cl", body: payload, hdrs: []hdr{{"Content-Type", "application/octet-stream"}}})
+			req = simpleGet(host, "/limited-download")
+		} else { // the client side limiter reads the work connection at frpc: the request direction
+			be.script(&scripted{status: 200, framing: "cl", body: []byte("ok"), hdrs: []hdr{{"Content-Type", "text/plain"}}})
+			req = &userReq{method: "POST", target: "/limited-upload", host: host, framing: "cl", body: payload}
+		}
+		be.drain()
+		got, el := ask(req, 15*time.Second)
+		status := 0
+		var recv []byte
+		if got != nil {
+			status = got.status
+			recv = got.body
+		}
+		if mode == "client" {
+			recv = nil
+			if sn := be.waitSeen(2 * time.Second); sn != nil {
+				recv = sn.body
+			}
+		}
+		cs := fmt.Sprintf("CLimited %d 24576 %d %d %s %s %d", i+1, len(payload), status, hx.HxS(bodyID(payload)), hx.HxS(bodyID(recv)), el.Milliseconds())
+		cases = append(cases, cs)
+		st.dist["limited:"+mode]++
+		if status != 200 || bodyID(recv) != bodyID(payload) {
+			st.fail("impl:body-lost-under-bandwidth-limit", fmt.Sprintf("http proxy with bandwidthLimit 24KB (%s side), a %d-byte body: status %d, %d bytes arrived, %d ms", mode, len(payload), status, len(recv), el.Milliseconds()), cs)
+		}
+	}
+
+	// ---- thorough tier only: the real frps and its 30 s vhost sniffing timeout (a constant): an answer on an
+	// https proxy (https2https plugin, no compression) whose second chunk is written 31 s after the accept,
+	// then a second request on the aged connection ----
+	if cfg.Tier == "thorough" {
+		sp := tlsProxies[1]
+		body := g.Bytes(48)
+		be.script(&scripted{status: 200, framing: "chunked", body: body, chunks: []int{24}, slowFirstMs: 31000, slowMs: 10,
+			hdrs: []hdr{{"Content-Type", "application/octet-stream"}}})
+		be.drain()
+		be.mu.Lock()
+		be.chunkTimes = nil
+		be.mu.Unlock()
+		t0 := time.Now()
+		if u, err := dialUser(saddr, fmt.Sprintf("127.0.2.%d", 11+g.Intn(240))); err == nil {
+			tc := tls.Client(u.c, &tls.Config{InsecureSkipVerify: true, ServerName: sp.rt.domain, NextProtos: []string{"http/1.1"}})
+			_ = tc.SetDeadline(time.Now().Add(5 * time.Second))
+			if err := tc.Handshake(); err == nil {
+				_ = tc.SetDeadline(time.Time{})
+				tu := newUserConn(tc)
+				ages := []string{fmt.Sprint(time.Since(t0).Milliseconds())}
+				answered := 0
+				got, err1 := tu.do(simpleGet(sp.rt.domain, "/slow-31s"), 40*time.Second)
+				var gotBody []byte
+				if got != nil {
+					gotBody = got.body
+				}
+				if err1 == nil && got.status == 200 {
+					answered++
+				}
+				be.script(&scripted{status: 200, framing: "cl", body: []byte("second"), hdrs: []hdr{{"Content-Type", "text/plain"}}})
+				ages = append(ages, fmt.Sprint(time.Since(t0).Milliseconds()))
+				if got2, err2 := tu.do(simpleGet(sp.rt.domain, "/second"), 5*time.Second); err2 == nil && got2.status == 200 && string(got2.body) == "second" {
+					answered++
+				}
+				tu.close()
+				be.mu.Lock()
+				times := append([]time.Time{}, be.chunkTimes...)
+				be.mu.Unlock()
+				var chunks []string
+				for i, ct := range times {
+					if (i+1)*24 <= len(body) {
+						chunks = append(chunks, fmt.Sprintf("(%d, %s)", ct.Sub(t0).Milliseconds(), hx.Hx(body[i*24:(i+1)*24])))
+					}
+				}
+				cs := fmt.Sprintf("CAged 30000 %s %s %s %d", hx.List(chunks), hx.Hx(gotBody), hx.List(ages), answered)
+				cases = append(cases, cs)
+				st.dist["aged:real-frps-30s"]++
+				if string(gotBody) != string(body) || answered != 2 {
+					st.fail("impl:muxed-connection-cut-after-vhost-timeout", fmt.Sprintf("real frps, https proxy + %s: an answer whose second chunk is written 31 s after the accept arrived as %d of %d bytes; requests answered %d/2", sp.plugin, len(gotBody), len(body), answered), cs)
+				}
+			} else {
+				u.close()
+			}
 		}
 	}
 
@@ -372,19 +546,6 @@ func driveSys(cfg *hx.RunCfg) error {
 	}
 
 	// ---- dead backend -> not-found page; stalling backend -> 504 in bounded time, others unaffected ----
-	ask := func(req *userReq, timeout time.Duration) (*userResp, time.Duration) {
-		u, err := dialUser(vaddr, fmt.Sprintf("127.0.2.%d", 11+g.Intn(240)))
-		if err != nil {
-			return nil, 0
-		}
-		defer u.close()
-		t0 := time.Now()
-		resp, err := u.do(req, timeout)
-		if err != nil {
-			return nil, time.Since(t0)
-		}
-		return resp, time.Since(t0)
-	}
 	got, el := ask(simpleGet("s9.c02.test", "/dead"), 5*time.Second)
 	cases = append(cases, coqErrCase("HrErrOther", "None", got, el, 2*time.Second, true))
 	st.dist["sys:dead-backend"]++
@@ -453,7 +614,7 @@ func driveSys(cfg *hx.RunCfg) error {
 		Tail: "Definition M := Eval vm_compute in mismatches check_case cases.\nPrint M.\n" +
 			counter("NSYSFWD", "is_fwd") + counter("NSYSCHAIN", "is_chain") + counter("NSYSHS2H", "(is_plug HrHS2H)") + counter("NSYSHS2HS", "(is_plug HrHS2HS)") +
 			counter("NSYSERR504", "is_err504") + counter("NSYSERR404", "is_err404") + counter("NUPGRADE", "(is_tunnel 1)") + counter("NCONNECT", "(is_tunnel 2)") +
-			counter("NOVERLAP", "is_overlap") + counter("NKEEPPLAIN", "(is_keep false)") + counter("NKEEPCOMP", "(is_keep true)") + counter("NKEEPLOST", "keep_lost"),
+			counter("NOVERLAP", "is_overlap") + counter("NBIGHEAD", "is_bighead") + counter("NLIMITED", "is_limited") + counter("NKEEPPLAIN", "(is_keep false)") + counter("NKEEPCOMP", "(is_keep true)") + counter("NKEEPLOST", "keep_lost"),
 	}
 	if err := cf.Write(cfg.Out); err != nil {
 		return err
